@@ -1290,6 +1290,127 @@ Proof.
 Qed.
 
 
+(* ---- ... and conversely: nothing gains a value or changes it ---------------------------------- *)
+Lemma inline_worker_inv : forall f cells ti e e',
+  inline_worker f cells ti e = Ok e' ->
+  ((forall op args, e <> TNode op args) /\ e' = e) \/
+  (exists f' op args args', f = S f' /\ e = TNode op args /\ e' = TNode op args' /\
+                            mapM_res (argfun f' cells ti) args = Ok args').
+Proof.
+  intros f cells ti e e' H. destruct f as [|f]; [discriminate|].
+  destruct e as [x|c|c|op args].
+  - left. split; [intros; discriminate | cbn in H; inversion H; reflexivity].
+  - left. split; [intros; discriminate | cbn in H; inversion H; reflexivity].
+  - left. split; [intros; discriminate | cbn in H; inversion H; reflexivity].
+  - right. rewrite inline_worker_node in H.
+    destruct (mapM_res (argfun f cells ti) args) as [args'|] eqn:E; [|discriminate].
+    inversion H; subst. exists f, op, args, args'. auto.
+Qed.
+
+(* [e'] comes from [e]: unchanged, by the worker, or as an argument of a node *)
+Definition InlRel (cells : list (Z * cell)) (ti : list Z) (e e' : tree) : Prop :=
+  e = e' \/ (exists f, inline_worker f cells ti e = Ok e') \/ (exists f, argfun f cells ti e = Ok e').
+
+Lemma InlRel_elim : forall (s : state) ti p e' b,
+  Den s p e' b ->
+  (forall f e, inline_worker f (s_cells s) ti e = Ok e' -> Den s p e b) ->
+  forall e, InlRel (s_cells s) ti e e' -> Den s p e b.
+Proof.
+  intros s ti p e' b D W e [->|[[f H]|[f H]]]; [exact D | exact (W f e H)|].
+  destruct e as [x|c|c|op args]; cbn [argfun] in H.
+  - inversion H; subst. exact D.
+  - destruct (zmem c ti).
+    + destruct (dget c (s_cells s)) as [cl0|] eqn:Ec; [|discriminate].
+      eapply DRef; [exact Ec | exact (W f _ H)].
+    + inversion H; subst. exact D.
+  - inversion H; subst. exact D.
+  - exact (W f _ H).
+Qed.
+
+Lemma inline_leaf_W : forall (s : state) ti p e' b,
+  (forall op args, e' <> TNode op args) -> Den s p e' b ->
+  forall f e, inline_worker f (s_cells s) ti e = Ok e' -> Den s p e b.
+Proof.
+  intros s ti p e' b Hl D f e H.
+  destruct (inline_worker_inv _ _ _ _ _ H) as [[_ ->]|(f' & op & args & args' & _ & _ & -> & _)];
+    [exact D | exfalso; eapply Hl; reflexivity].
+Qed.
+
+Lemma inline_step_den_conv : forall (s : state) ti k cl F g',
+  dget k (s_cells s) = Some cl ->
+  inline_worker F (s_cells s) ti (c_geom cl) = Ok g' ->
+  forall p,
+  (forall e' b, Den (set_cells s (dset k (with_geom cl g') (s_cells s))) p e' b ->
+     forall e, InlRel (s_cells s) ti e e' -> Den s p e b) /\
+  (forall es' bs, DenL (set_cells s (dset k (with_geom cl g') (s_cells s))) p es' bs ->
+     forall es, (es = es' \/ exists f, mapM_res (argfun f (s_cells s) ti) es = Ok es') ->
+     DenL s p es bs).
+Proof.
+  intros s ti k cl F g' Hk Hg p.
+  set (s' := set_cells s (dset k (with_geom cl g') (s_cells s))).
+  apply (Den_DenL_ind T surf P sense s' p
+    (fun e' b _ => forall e, InlRel (s_cells s) ti e e' -> Den s p e b)
+    (fun es' bs _ => forall es,
+       (es = es' \/ exists f, mapM_res (argfun f (s_cells s) ti) es = Ok es') -> DenL s p es bs)).
+  - intros x o Ho.
+    assert (D : Den s p (TSurf x) (lit x (sense o p))) by (apply DSurf; exact Ho).
+    apply InlRel_elim; [exact D|]. apply inline_leaf_W; [intros; discriminate | exact D].
+  - intros c cl0 b Hc _ IH.
+    assert (D : Den s p (TRef c) b).
+    { unfold s' in Hc. cbn [set_cells s_cells] in Hc. destruct (Z.eq_dec c k) as [->|Hne].
+      - rewrite dget_dset_same in Hc. inversion Hc; subst cl0. cbn [with_geom c_geom] in IH.
+        eapply DRef; [exact Hk|]. apply IH. right. left. exists F. exact Hg.
+      - rewrite dget_dset_other in Hc by exact Hne.
+        eapply DRef; [exact Hc|]. apply IH. left. reflexivity. }
+    apply InlRel_elim; [exact D|]. apply inline_leaf_W; [intros; discriminate | exact D].
+  - intros op args' bs _ IH.
+    assert (D : Den s p (TNode op args') (combine_op op bs)).
+    { apply DNode. apply IH. left. reflexivity. }
+    apply InlRel_elim; [exact D|].
+    intros f e H.
+    destruct (inline_worker_inv _ _ _ _ _ H) as [[_ E]|(f' & op0 & args & args0 & _ & -> & E & Hm)].
+    + subst e. exact D.
+    + inversion E; subst op0 args0. apply DNode. apply IH. right. exists f'. exact Hm.
+  - intros es [->|[f H]]; [apply DNil|].
+    destruct es as [|a r]; [apply DNil|]. cbn in H.
+    destruct (argfun f (s_cells s) ti a); [|discriminate].
+    destruct (mapM_res (argfun f (s_cells s) ti) r); discriminate.
+  - intros e' b es' bs _ IHe _ IHs es [->|[f H]].
+    + apply DCons; [apply IHe; left; reflexivity | apply IHs; left; reflexivity].
+    + destruct es as [|a r]; [discriminate|]. cbn [mapM_res] in H.
+      destruct (argfun f (s_cells s) ti a) as [a'|] eqn:E1; [|discriminate].
+      destruct (mapM_res (argfun f (s_cells s) ti) r) as [r'|] eqn:E2; [|discriminate].
+      inversion H; subst a' r'. apply DCons.
+      * apply IHe. right. right. exists f. exact E1.
+      * apply IHs. right. exists f. exact E2.
+Qed.
+
+Lemma inline_loop_den_conv : forall fuel ti keys (s : state) cells',
+  inline_loop fuel keys ti (s_cells s) = Ok cells' ->
+  forall p e b, Den (set_cells s cells') p e b -> Den s p e b.
+Proof.
+  intros fuel ti keys. induction keys as [|k r IH]; intros s cells' H p e b HD; cbn in H.
+  - inversion H; subst. eapply Den_same_tables; [| |exact HD]; reflexivity.
+  - destruct (dget k (s_cells s)) as [cl|] eqn:Ek; [|discriminate].
+    destruct (inline_worker fuel (s_cells s) ti (c_geom cl)) as [g'|] eqn:Eg; [|discriminate].
+    pose proof (IH (set_cells s (dset k (with_geom cl g') (s_cells s))) cells' H p e b HD) as HD1.
+    exact (proj1 (inline_step_den_conv s ti k cl fuel g' Ek Eg p) e b HD1 e (or_introl eq_refl)).
+Qed.
+
+Theorem inline_cells_den_conv : forall fuel num den (s : state) cells',
+  inline_cells fuel num den (s_cells s) = Ok cells' ->
+  forall p e b, Den (set_cells s cells') p e b -> Den s p e b.
+Proof.
+  intros fuel num den s cells' H p e b HD. unfold Model.inline_cells in H.
+  assert (Same : Ok (s_cells s) = Ok cells' -> Den s p e b).
+  { intros E. inversion E; subst. eapply Den_same_tables; [| |exact HD]; reflexivity. }
+  destruct (find_occurrences T (s_cells s)) as [occ|]; [|discriminate].
+  destruct occ as [|o occ']; [exact (Same H)|].
+  destruct (to_inline_set T (s_cells s) num den (o :: occ')) as [ti|]; [|discriminate].
+  destruct ti as [|t0 ti']; [exact (Same H)|].
+  exact (inline_loop_den_conv fuel (t0 :: ti') _ s cells' H p e b HD).
+Qed.
+
 (* ---- the "treat TRCL" loop: geometries are overwritten in place ------------------------------- *)
 (* before FILL is developed the trees contain no CellRef *)
 Fixpoint ref_free (e : tree) : bool :=
@@ -1421,5 +1542,373 @@ Proof.
       unfold s2. cbn. rewrite dget_dset_other by (intros ->; apply Hnin; left; reflexivity).
       rewrite C1. reflexivity.
 Qed.
+
+
+(* ---- the whole chain: TRCL loop, FILL development, inlining ------------------------------------ *)
+Notation LocW := (LocW T surf P tr_empty inv sense).
+Notation RepresentsW := (RepresentsW T surf P tr_empty inv sense).
+Notation VerdictW := (VerdictW T surf P tr_empty inv sense).
+Notation OutcomeW := (OutcomeW T surf P tr_empty inv sense).
+
+(* [s1] is [s0] with every cell moved by its TRCLs and nothing else changed *)
+Definition Moved (s0 s1 : state) : Prop :=
+  (forall k cl, dget k (s_cells s0) = Some cl ->
+     exists g', dget k (s_cells s1) = Some (with_geom cl g') /\
+       forall p b, Den s0 (act_seq (c_trcl cl) p) (c_geom cl) b -> Den s1 p g' b) /\
+  (forall k cl1, dget k (s_cells s1) = Some cl1 -> exists cl, dget k (s_cells s0) = Some cl).
+
+Lemma Moved_back : forall s0 s1 k cl1, Moved s0 s1 -> dget k (s_cells s1) = Some cl1 ->
+  exists cl g', dget k (s_cells s0) = Some cl /\ cl1 = with_geom cl g'.
+Proof.
+  intros s0 s1 k cl1 [M1 M2] H. destruct (M2 _ _ H) as (cl & Hcl).
+  destruct (M1 _ _ Hcl) as (g' & Hg & _). rewrite H in Hg. inversion Hg. eauto.
+Qed.
+
+Lemma LocW_LocB : forall s0 s1 du, Moved s0 s1 ->
+  forall key p ch b, LocW s0 du key p ch b -> LocB s1 du key p ch b.
+Proof.
+  intros s0 s1 du HM key p ch b H.
+  induction H as [key cl p b Hk Hf HD|key cl u p c chain b1 b2 Hk Hf Hc HD HL IH].
+  - destruct (proj1 HM _ _ Hk) as (g' & Hg & HDg).
+    eapply LBLeaf with (cl := with_geom cl g'); [exact Hg | exact Hf | apply HDg; exact HD].
+  - destruct (proj1 HM _ _ Hk) as (g' & Hg & HDg).
+    eapply LBFill with (cl := with_geom cl g') (u := u) (c := c);
+      [exact Hg | exact Hf | exact Hc | apply HDg; exact HD | exact IH].
+Qed.
+
+Lemma Paths_back : forall s0 s1 du, Moved s0 s1 ->
+  (forall key chs, Paths s1 du key chs -> Paths s0 du key chs) /\
+  (forall l chss, PathsL s1 du l chss -> PathsL s0 du l chss).
+Proof.
+  intros s0 s1 du HM.
+  apply (Paths_PathsL_ind T surf s1 du (fun key chs _ => Paths s0 du key chs)
+           (fun l chss _ => PathsL s0 du l chss)).
+  - intros key cl1 Hk Hf. destruct (Moved_back _ _ _ _ HM Hk) as (cl & g' & Hcl & ->).
+    eapply PLeaf; [exact Hcl | exact Hf].
+  - intros key cl1 u chss Hk Hf _ IH. destruct (Moved_back _ _ _ _ HM Hk) as (cl & g' & Hcl & ->).
+    eapply PFill; [exact Hcl | exact Hf | exact IH].
+  - apply PLNil.
+  - intros c cs chs chss _ IH1 _ IH2. apply PLCons; assumption.
+Qed.
+
+Lemma LocW_first : forall s du key p ch b, LocW s du key p ch b ->
+  exists cl b1, dget key (s_cells s) = Some cl /\
+    Den s (act_seq (c_trcl cl) p) (c_geom cl) b1 /\ (b1 = false -> b = false).
+Proof.
+  intros s du key p ch b H. destruct H as [key cl p b Hk Hf HD|key cl u p c chain b1 b2 Hk Hf Hc HD HL].
+  - exists cl, b. auto.
+  - exists cl, b1. split; [exact Hk|]. split; [exact HD|]. intros ->. reflexivity.
+Qed.
+
+Lemma LocW_unique : forall s du, universe_partitionW T surf P tr_empty inv sense s du ->
+  forall key p ch b, LocW s du key p ch b -> b = true ->
+  forall ch' b', LocW s du key p ch' b' -> ch' <> ch -> b' = false.
+Proof.
+  intros s du Hpart key p ch b H.
+  induction H as [key cl p b Hk Hf HD|key cl u p c chain b1 b2 Hk Hf Hc HD HL IH];
+    intros Hb ch' b' H' Hne.
+  - inversion H' as [key' cl' p' b0 Hk' Hf' HD' Ek Ep Ec Eb
+                    |key' cl' u' p' c' chain' b1' b2' Hk' Hf' Hc' HD' HL' Ek Ep Ec Eb]; subst.
+    + exfalso. apply Hne. reflexivity.
+    + rewrite Hk in Hk'. inversion Hk'; subst cl'. rewrite Hf in Hf'. discriminate.
+  - apply andb_true_iff in Hb. destruct Hb as [-> ->].
+    inversion H' as [key' cl' p' b0 Hk' Hf' HD' Ek Ep Ec Eb
+                    |key' cl' u' p' c' chain' b1' b2' Hk' Hf' Hc' HD' HL' Ek Ep Ec Eb]; subst.
+    + rewrite Hk in Hk'. inversion Hk'; subst cl'. rewrite Hf in Hf'. discriminate.
+    + rewrite Hk in Hk'. inversion Hk'; subst cl'. rewrite Hf in Hf'. inversion Hf'; subst u'.
+      destruct (Z.eq_dec c' c) as [->|Hcc].
+      * rewrite (IH eq_refl chain' b2' HL'); [apply andb_false_r|].
+        intros ->. apply Hne. reflexivity.
+      * destruct (LocW_first _ _ _ _ _ _ HL) as (clc & bc & Hclc & HDc & Hbc).
+        destruct (LocW_first _ _ _ _ _ _ HL') as (clc' & bc' & Hclc' & HDc' & Hbc').
+        assert (bc = true) by (destruct bc; [reflexivity | discriminate (Hbc eq_refl)]). subst bc.
+        assert (HDf : Den s (act_seq (c_trcl clc') (frame cl p)) (c_geom clc') false).
+        { eapply (Hpart u (frame cl p) c c'); eauto. }
+        rewrite (proj1 (Den_fun _ _) _ _ HDc' _ HDf) in Hbc'. rewrite (Hbc' eq_refl).
+        apply andb_false_r.
+Qed.
+
+(* by_universe and fill_keys only read the key, the universe and the FILL of each cell *)
+Definition sk (kc : Z * cell) : Z * Z * option Z := (fst kc, c_univ (snd kc), c_fill (snd kc)).
+
+Lemma by_universe_sk : forall (c1 c2 : list (Z * cell)), map sk c1 = map sk c2 ->
+  by_universe c1 = by_universe c2.
+Proof.
+  intros c1 c2. unfold by_universe. generalize (@nil (Z * list Z)).
+  revert c2. induction c1 as [|[k a] r IH]; intros [|[k' a'] r'] acc H; try discriminate; [reflexivity|].
+  cbn in H. inversion H; subst. cbn. rewrite H2. apply IH. assumption.
+Qed.
+
+Lemma fill_keys_sk : forall (c1 c2 : list (Z * cell)), map sk c1 = map sk c2 ->
+  fill_keys c1 = fill_keys c2.
+Proof.
+  intros c1. unfold fill_keys. induction c1 as [|[k a] r IH]; intros [|[k' a'] r'] H; try discriminate;
+    [reflexivity|].
+  cbn in H. inversion H; subst. cbn. rewrite H2, H3.
+  destruct (is_some (c_fill a') && (c_univ a' =? 0)); cbn; rewrite (IH r' H4); reflexivity.
+Qed.
+
+Lemma dset_with_geom_sk : forall k (cl : cell) g cells, dget k cells = Some cl ->
+  map sk (dset k (with_geom cl g) cells) = map sk cells.
+Proof.
+  intros k cl g cells. induction cells as [|[k' c'] r IH]; cbn; intros H; [discriminate|].
+  destruct (k =? k') eqn:E.
+  - apply Z.eqb_eq in E. subst k'. inversion H; subst. reflexivity.
+  - cbn. rewrite (IH H). reflexivity.
+Qed.
+
+Lemma trcl_phase_sk : forall fuel keys (s s' : state),
+  all_ref_free s -> trcl_phase fuel keys s = Ok s' ->
+  map sk (s_cells s') = map sk (s_cells s).
+Proof.
+  intros fuel keys. induction keys as [|k r IH]; intros s s' Hrf H; cbn in H.
+  - inversion H; reflexivity.
+  - destruct (dget k (s_cells s)) as [cl|] eqn:Ek; [|discriminate].
+    destruct (apply_trcl fuel (c_trcl cl) (c_geom cl) s) as [[g' s1]|] eqn:Ea; [|discriminate].
+    destruct (apply_trcl_ref_free _ _ _ _ _ _ (Hrf k cl Ek) Ea) as ((C1 & C2 & C3) & C4).
+    set (s2 := mkSt (dset k (with_geom cl g') (s_cells s1)) (s_surfs s1) (s_nck s1) (s_nsk s1)
+                    (s_cache s1) (s_rcache s1)) in H.
+    assert (Hrf2 : all_ref_free s2).
+    { intros k0 cl0 Hk0. unfold s2 in Hk0. cbn [s_cells] in Hk0. destruct (Z.eq_dec k0 k) as [->|Hne].
+      - rewrite dget_dset_same in Hk0. inversion Hk0; subst. exact C4.
+      - rewrite dget_dset_other in Hk0 by exact Hne. rewrite C1 in Hk0. exact (Hrf _ _ Hk0). }
+    rewrite (IH _ _ Hrf2 H). unfold s2. cbn [s_cells]. rewrite C1.
+    apply dset_with_geom_sk. exact Ek.
+Qed.
+
+Lemma map_fst_sk : forall (c1 c2 : list (Z * cell)), map sk c1 = map sk c2 -> map fst c1 = map fst c2.
+Proof.
+  intros c1. induction c1 as [|[k a] r IH]; intros [|[k' a'] r'] H; try discriminate; [reflexivity|].
+  cbn in H. inversion H; subst. cbn. rewrite (IH r' H4). reflexivity.
+Qed.
+
+Lemma dget_keys : forall {V} k (d : list (Z * V)),
+  In k (map fst d) <-> exists v, dget k d = Some v.
+Proof.
+  intros V k d. induction d as [|[k' v'] r IH]; cbn.
+  - split; [intros [] | intros [v H]; discriminate].
+  - destruct (k =? k') eqn:E.
+    + apply Z.eqb_eq in E. subst. split; eauto.
+    + rewrite <- IH. split; [intros [H|H]; [subst; rewrite Z.eqb_refl in E; discriminate | exact H] | auto].
+Qed.
+
+Lemma trcl_phase_Moved : forall fuel (s0 s1 : state),
+  fresh_ok s0 -> s_cache s0 = [] -> NoDup (map fst (s_cells s0)) -> all_ref_free s0 ->
+  trcl_phase fuel (map fst (s_cells s0)) s0 = Ok s1 ->
+  Moved s0 s1 /\ fresh_ok s1 /\ s_cache s1 = [] /\ map sk (s_cells s1) = map sk (s_cells s0).
+Proof.
+  intros fuel s0 s1 Hf Hc Hnd Hrf H.
+  destruct (trcl_phase_den fuel _ s0 s1 Hf Hc Hnd Hrf H) as (Hf1 & Hc1 & _ & _ & Hin & _).
+  pose proof (trcl_phase_sk _ _ _ _ Hrf H) as Hsk.
+  split; [|auto]. split.
+  - intros k cl Hk. apply Hin; [|exact Hk]. apply dget_keys. eauto.
+  - intros k cl1 Hk. apply dget_keys. rewrite <- (map_fst_sk _ _ Hsk). apply dget_keys. eauto.
+Qed.
+
+Lemma inline_cells_fields : forall fuel num den (cells cells' : list (Z * cell)),
+  inline_cells fuel num den cells = Ok cells' ->
+  forall k cl, dget k cells = Some cl -> exists g, dget k cells' = Some (with_geom cl g).
+Proof.
+  intros fuel num den cells cells' H. unfold Model.inline_cells in H.
+  assert (Same : Ok cells = Ok cells' ->
+            forall k cl, dget k cells = Some cl -> exists g, dget k cells' = Some (with_geom cl g)).
+  { intros E k cl Hk. inversion E; subst. exists (c_geom cl). destruct cl; exact Hk. }
+  destruct (find_occurrences T cells) as [occ|]; [|discriminate].
+  destruct occ as [|o occ']; [exact (Same H)|].
+  destruct (to_inline_set T cells num den (o :: occ')) as [ti|]; [|discriminate].
+  destruct ti as [|t0 ti']; [exact (Same H)|].
+  exact (inline_loop_fields fuel (t0 :: ti') _ _ _ H).
+Qed.
+
+(* from what FILL development achieves on the moved table to the statement about the cards *)
+Lemma Represents_W : forall s0 s1 du s2 fuel num den cells3 key k ch,
+  Moved s0 s1 -> inline_cells fuel num den (s_cells s2) = Ok cells3 ->
+  Represents s1 du s2 key k ch -> RepresentsW s0 du (set_cells s2 cells3) key k ch.
+Proof.
+  intros s0 s1 du s2 fuel num den cells3 key k ch HM Hinl
+         (ncl & lcl1 & H1 & H2 & H3 & H4 & H5 & H6 & H7 & H8).
+  destruct (inline_cells_fields _ _ _ _ _ Hinl k ncl H1) as (g & Hg).
+  destruct (Moved_back _ _ _ _ HM H2) as (lcl & gl & Hl & ->).
+  pose proof (inline_cells_den fuel num den s2 cells3 Hinl) as Fwd.
+  pose proof (inline_cells_den_conv fuel num den s2 cells3 Hinl) as Bwd.
+  exists (with_geom ncl g), lcl. split; [exact Hg|]. split; [exact Hl|].
+  split; [exact H3|]. split; [exact H4|]. split; [exact H5|]. split; [exact H6|]. split.
+  - intros p b HL. pose proof (H7 p b (LocW_LocB _ _ _ HM _ _ _ _ HL)) as D2.
+    assert (D3 : Den (set_cells s2 cells3) p (TRef k) b) by (apply Fwd; eapply DRef; eauto).
+    destruct (Den_ref_inv _ _ _ _ D3) as (c3 & Hc3 & D3g). cbn [set_cells s_cells] in Hc3.
+    rewrite Hg in Hc3. inversion Hc3; subst c3. exact D3g.
+  - intros p D3g. apply Fwd. apply H8.
+    assert (D3 : Den (set_cells s2 cells3) p (TRef k) true).
+    { eapply DRef; [cbn [set_cells s_cells]; exact Hg | exact D3g]. }
+    destruct (Den_ref_inv _ _ _ _ (Bwd _ _ _ D3)) as (c2 & Hc2 & D2g).
+    rewrite H1 in Hc2. inversion Hc2; subst c2. exact D2g.
+Qed.
+
+Lemma Represents_VerdictW : forall s0 du s3 key p ch k ch',
+  LocW s0 du key p ch true -> RepresentsW s0 du s3 key k ch' -> VerdictW s0 du s3 key p ch k ch'.
+Proof.
+  intros s0 du s3 key p ch k ch' HL (ncl & lcl & H1 & _ & _ & _ & _ & _ & H7 & _). split.
+  - intros ->. eapply DRef; [exact H1 | apply H7; exact HL].
+  - intros Hpart Hne b' HL'.
+    rewrite (LocW_unique s0 du Hpart key p ch true HL eq_refl ch' b' HL' Hne) in HL'.
+    eapply DRef; [exact H1 | apply H7; exact HL'].
+Qed.
+
+Lemma LocW_complete : forall s0 s1 du, Moved s0 s1 ->
+  forall key p ch b chs, LocW s0 du key p ch b -> Paths s1 du key chs -> In ch chs.
+Proof.
+  intros s0 s1 du HM key p ch b chs HL HP.
+  exact (Paths_complete s1 du key p ch b (LocW_LocB _ _ _ HM _ _ _ _ HL) chs HP).
+Qed.
+
+Notation trcl_phase' := trcl_phase.
+
+(* construct_volume_t4 from the parsed cell cards to the table that is converted: the TRCL loop
+   over all cells, the FILL loop, inline_cells *)
+Theorem pipeline_located : forall fuel cf ifd ifg num den (s0 s1 s2 : state) rs cells3,
+  fresh_ok s0 -> s_cache s0 = [] -> NoDup (map fst (s_cells s0)) -> all_ref_free s0 ->
+  (forall c cl, dget c (s_cells s0) = Some cl -> c_orig cl = []) ->
+  trcl_phase fuel (map fst (s_cells s0)) s0 = Ok s1 ->
+  fill_phase fuel cf ifd ifg s1 = Ok (rs, s2) ->
+  inline_cells fuel num den (s_cells s2) = Ok cells3 ->
+  Forall2 (OutcomeW s0 (by_universe (s_cells s0)) (set_cells s2 cells3)) (fill_keys (s_cells s0)) rs.
+Proof.
+  intros fuel cf ifd ifg num den s0 s1 s2 rs cells3 Hf Hc Hnd Hrf Ho Ht Hfill Hinl.
+  destruct (trcl_phase_Moved fuel s0 s1 Hf Hc Hnd Hrf Ht) as (HM & Hf1 & Hc1 & Hsk).
+  assert (Ho1 : forall c cl, dget c (s_cells s1) = Some cl -> c_orig cl = []).
+  { intros c cl1 Hk. destruct (Moved_back _ _ _ _ HM Hk) as (cl & g' & Hcl & ->).
+    cbn [with_geom c_orig]. exact (Ho _ _ Hcl). }
+  destruct (fill_phase_located fuel cf ifd ifg s1 rs s2 Hf1 Hc1 Ho1 Hfill) as (_ & _ & HR).
+  rewrite (by_universe_sk _ _ Hsk), (fill_keys_sk _ _ Hsk) in HR.
+  eapply Forall2_imp; [|exact HR]. intros key ks (chs & HP & HRep & _).
+  set (du := by_universe (s_cells s0)) in *.
+  assert (HRW : Forall2 (RepresentsW s0 du (set_cells s2 cells3) key) ks chs).
+  { eapply Forall2_imp; [|exact HRep]. intros k ch Hr. eapply Represents_W; eauto. }
+  exists chs. split; [exact (proj1 (Paths_back _ _ du HM) _ _ HP)|]. split; [exact HRW|].
+  intros p ch HL. split; [exact (LocW_complete _ _ du HM _ _ _ _ _ HL HP)|].
+  eapply Forall2_imp; [|exact HRW]. intros k ch' Hr. apply Represents_VerdictW; assumption.
+Qed.
+
+
+(* one step down a located descent: the rest of the descent is located at the point expressed in
+   the frame given by the rule above *)
+Lemma LocW_head : forall s du key p ch b, LocW s du key p ch b -> exists r, ch = key :: r.
+Proof. intros s du key p ch b H. destruct H; eauto. Qed.
+
+Lemma LocW_step : forall s du key p c r b cl,
+  LocW s du key p (key :: c :: r) b -> dget key (s_cells s) = Some cl ->
+  exists b1 b2, b = b1 && b2 /\ Den s (act_seq (c_trcl cl) p) (c_geom cl) b1 /\
+                LocW s du c (frame cl p) (c :: r) b2.
+Proof.
+  intros s du key p c r b cl H Hk.
+  inversion H as [key' cl' p' b0 Hk' Hf' HD' Ek Ep Ec Eb
+                 |key' cl' u' p' c' chain' b1' b2' Hk' Hf' Hc' HD' HL' Ek Ep Ec Eb].
+  subst key' p' chain'. rewrite Hk in Hk'. inversion Hk'; subst cl'.
+  destruct (LocW_head _ _ _ _ _ _ HL') as (r' & Hr'). inversion Hr'; subst c' r'.
+  exists b1', b2'. split; [congruence|]. split; [exact HD' | exact HL'].
+Qed.
+
+(* ---- the precedence rule, from the keyword tokens ----------------------------------------------- *)
+Section Precedence.
+Variable mk : list Z -> T.
+Variable norm : bool -> list Z -> list Z.
+(* Python truthiness of the tuple *)
+Hypothesis mk_empty : forall l, tr_empty (mk l) = match l with [] => true | _ => false end.
+(* normalize_transform returns twelve numbers *)
+Hypothesis norm_nonempty : forall star params, norm star params <> [].
+
+Notation kw_tuple := (kw_tuple norm).
+Notation cell_of_keywords := (cell_of_keywords T mk norm).
+
+Lemma kw_tuple_explicit : forall is_fill star trid params table l,
+  params <> [] -> (forall k c, dget k table = Some c -> c <> []) ->
+  kw_tuple is_fill star trid params table = Ok l -> l <> [].
+Proof.
+  intros is_fill star trid params table l Hne Htab H. unfold Model.kw_tuple in H.
+  destruct (parse_tr_params is_fill star trid params table) as [[l0|]|] eqn:E; [| |discriminate].
+  - inversion H; subst. exact (parse_tr_params_explicit _ _ _ _ _ _ Hne Htab E).
+  - inversion H; subst. apply norm_nonempty.
+Qed.
+
+Lemma act_mk : forall l p, act (mk l) p = match l with [] => p | _ => inv (mk l) p end.
+Proof. intros l p. unfold Spec.act. rewrite mk_empty. destruct l; reflexivity. Qed.
+
+(* the frame of the filling universe of a cell built from its keywords:
+   a FILL transformation given by number / inline / starred wins, whatever the TRCL is;
+   a FILL without transformation follows the cell's TRCL; without TRCL the frame is the cell's *)
+Theorem precedence_from_tokens : forall table mat rho geom imp u star univ trid params trcl cl,
+  (forall k c, dget k table = Some c -> c <> []) ->
+  cell_of_keywords table mat rho geom imp u (Some (star, univ, trid, params)) trcl = Ok cl ->
+  c_fill cl = Some univ /\
+  (params <> [] ->
+     exists lf, kw_tuple true star trid params table = Ok lf /\ lf <> [] /\
+                forall p, frame cl p = inv (mk lf) p) /\
+  (params = [] ->
+     match trcl with
+     | None => forall p, frame cl p = p
+     | Some (tstar, ttrid, tparams) =>
+         exists lt, kw_tuple false tstar ttrid tparams table = Ok lt /\
+                    forall p, frame cl p = match lt with [] => p | _ => inv (mk lt) p end
+     end).
+Proof.
+  intros table mat rho geom imp u star univ trid params trcl cl Htab H.
+  unfold Model.cell_of_keywords in H.
+  destruct (Model.kw_tuple norm true star trid params table) as [lf|] eqn:Ef; [|discriminate].
+  destruct trcl as [[[tstar ttrid] tparams]|].
+  - destruct (Model.kw_tuple norm false tstar ttrid tparams table) as [lt|] eqn:Et; [|discriminate].
+    assert (Hcl : cl = mkCell mat rho geom imp (match u with Some n => Z.abs n | None => 0 end)
+                         (Some univ) (Some (mk lf)) 0
+                         (match lt with [] => [] | _ => [mk lt] end) []).
+    { destruct lt; inversion H; reflexivity. }
+    subst cl. split; [reflexivity|]. split.
+    + intros Hne. exists lf. split; [reflexivity|].
+      pose proof (kw_tuple_explicit _ _ _ _ _ _ Hne Htab Ef) as Hlf. split; [exact Hlf|].
+      intros p. unfold Spec.frame. cbn [c_filltr]. rewrite mk_empty. destruct lf; [contradiction | reflexivity].
+    + intros ->. exists lt. split; [reflexivity|].
+      assert (lf = []).
+      { unfold Model.kw_tuple in Ef. rewrite parse_tr_params_fill_none in Ef. inversion Ef. reflexivity. }
+      subst lf. intros p. unfold Spec.frame. cbn [c_filltr c_trcl]. rewrite mk_empty.
+      destruct lt as [|a r]; [reflexivity|]. cbn [Spec.act_seq]. rewrite act_mk. reflexivity.
+  - inversion H; subst cl. split; [reflexivity|]. split.
+    + intros Hne. exists lf. split; [reflexivity|].
+      pose proof (kw_tuple_explicit _ _ _ _ _ _ Hne Htab Ef) as Hlf. split; [exact Hlf|].
+      intros p. unfold Spec.frame. cbn [c_filltr]. rewrite mk_empty. destruct lf; [contradiction | reflexivity].
+    + intros ->.
+      assert (lf = []).
+      { unfold Model.kw_tuple in Ef. rewrite parse_tr_params_fill_none in Ef. inversion Ef. reflexivity. }
+      subst lf. intros p. unfold Spec.frame. cbn [c_filltr c_trcl]. rewrite mk_empty. reflexivity.
+Qed.
+
+(* ... and so for a located point: below a container built from its keywords, the rest of the
+   descent is located at the point moved back by the FILL transformation when one is written
+   (by number, inline or starred), else by the container's TRCL, else unmoved *)
+Theorem precedence_located : forall table mat rho geom imp u star univ trid params trcl cl
+                                    (s : state) du key p c r,
+  (forall k cd, dget k table = Some cd -> cd <> []) ->
+  cell_of_keywords table mat rho geom imp u (Some (star, univ, trid, params)) trcl = Ok cl ->
+  dget key (s_cells s) = Some cl ->
+  LocW s du key p (key :: c :: r) true ->
+  (params <> [] ->
+     exists lf, kw_tuple true star trid params table = Ok lf /\ lf <> [] /\
+                LocW s du c (inv (mk lf) p) (c :: r) true) /\
+  (params = [] ->
+     match trcl with
+     | None => LocW s du c p (c :: r) true
+     | Some (tstar, ttrid, tparams) =>
+         exists lt, kw_tuple false tstar ttrid tparams table = Ok lt /\
+                    LocW s du c (match lt with [] => p | _ => inv (mk lt) p end) (c :: r) true
+     end).
+Proof.
+  intros table mat rho geom imp u star univ trid params trcl cl s du key p c r Htab Hcl Hk HL.
+  destruct (precedence_from_tokens _ _ _ _ _ _ _ _ _ _ _ _ Htab Hcl) as (_ & Hex & Hno).
+  destruct (LocW_step _ _ _ _ _ _ _ _ HL Hk) as (b1 & b2 & Hb & _ & HL2).
+  symmetry in Hb. apply andb_true_iff in Hb. destruct Hb as [_ ->]. split.
+  - intros Hne. destruct (Hex Hne) as (lf & E & Hlf & Hfr). exists lf. split; [exact E|].
+    split; [exact Hlf|]. rewrite <- (Hfr p). exact HL2.
+  - intros Hp. specialize (Hno Hp). destruct trcl as [[[tstar ttrid] tparams]|].
+    + destruct Hno as (lt & E & Hfr). exists lt. split; [exact E|]. rewrite <- (Hfr p). exact HL2.
+    + rewrite <- (Hno p). exact HL2.
+Qed.
+End Precedence.
 
 End Proofs.
